@@ -752,10 +752,13 @@ impl World {
         self.judging = C02;
         self.check_valid(&last, "chain.last()")?;
         self.judging = C05;
-        if !self.on(C02) && !self.on(C05) && !hidden_consistent(&last, &full) {
+        if !self.on(C02) && !self.on(C05) && !self.on(C14) && !hidden_consistent(&last, &full) {
             // the stored hash or an occupancy set no longer matches the squares: C02 and C05 report
-            // that; under any other property the object is outside the library's contract from here
-            // on (its statements are about valid positions), so the run stops
+            // that; under C04, C13 and C17 the object is outside the library's contract from here on
+            // (their statements are about valid positions), so the run stops. C14 goes on: its
+            // statement is about observable results - occurrence counts by position value and
+            // outcomes - and a repetition table keyed by a drifting hash, or a legal-move probe misled
+            // by a stale set, makes exactly those wrong (seeded change S-C14-20)
             self.stats.hit("note.run-stopped-at-inconsistent-hidden-state");
             self.poisoned = true;
             return Ok(());
